@@ -63,10 +63,11 @@ let runner_case (s : sexp) : string =
   | L [A "twice"; rk; A mode; cap; tree] ->
       (* one reporter, two consecutive runs of the same tree: both verdicts and the totals after the second *)
       let rk = rk_of (atom rk) and cap = ni cap and tree = node_of tree in
-      let m = (if mode = "inproc" then InProcess else Forked) in
-      (match run_two rk verdict_suite m cap tree tree with
+      let (m1, m2) = (match mode with "inproc" -> (InProcess, InProcess) | "inproc-forked" -> (InProcess, Forked) | _ -> (Forked, Forked)) in
+      (match run_two rk verdict_suite m1 m2 cap tree tree with
        | (Finished (v1, _), Finished (v2, p2)) ->
-           Printf.sprintf "%d %d %s" (if v1 then 0 else 1) (if v2 then 0 else 1) (cnt_str p2.tot)
+           Printf.sprintf "%d %d %s" (if v1 then 0 else 1) (if v2 then 0 else 1) (cnt_str p2.tot) ^ "|" ^
+           String.concat ";" (List.filter_map (function ETestDone (t, d, _) -> Some (Printf.sprintf "%d %s" (int_of_nat t) (cnt_str d)) | _ -> None) (List.rev p2.out))
        | _ -> "crash")
   | L [A "timeout-accepts"; v] ->
       let bytes = (match v with A "e" -> [] | L l -> List.map (fun x -> n_of_int (int_of_string (atom x))) l | _ -> failwith "bytes") in
